@@ -545,6 +545,22 @@ def gen_odp_pages():
                 yield case + ("+" + extra if extra else ""), N(q("draw", "page"), *frames)
 
 
+def gen_odp_shape_pages():
+    """draw:page whose text sits in a grouped text frame (draw:g) or directly in a drawing shape (draw:custom-shape,
+    draw:rect ...: Impress shapes carry text:p children), next to an ordinary title frame."""
+    ST = q("text", "style-name")
+    frame = lambda tk, y: N(D_FRAME, N(D_TEXTBOX, N(T_P, text=tk.v())), **{q("svg", "y"): f"{y}cm", q("svg", "x"): "1cm"})
+    cases = {
+        "grouped-frames": lambda tk: [N(q("draw", "g"), frame(tk, 3), frame(tk, 4))],
+        "nested-group": lambda tk: [N(q("draw", "g"), N(q("draw", "g"), frame(tk, 3)))],
+        "shape-text": lambda tk: [N(q("draw", "custom-shape"), N(T_P, text=tk.v())), N(q("draw", "rect"), N(T_P, text=tk.v()))],
+    }
+    for name, mk in cases.items():
+        tk = Tok()
+        title = N(D_FRAME, N(D_TEXTBOX, N(T_P, text=tk.v(), **{ST: "TitleText"})), **{q("svg", "y"): "1cm", q("svg", "x"): "1cm"})
+        yield name, N(q("draw", "page"), title, *mk(tk))
+
+
 def odp_page_tokens(page: Node) -> list:
     """Visible tokens of the slide (text-box paragraphs outside comments and outside the notes), sorted:
     text_combined orders by category (title, body, other) by documented design, so only multiplicity is specified."""
